@@ -121,6 +121,22 @@ Theorem C02_llo_median_between_data_sources :
 Proof. exact OutcomeEndToEnd.llo_median_between_data_sources. Qed.
 Print Assumptions C02_llo_median_between_data_sources.
 
+Theorem C02_llo_quote_between_data_sources :
+  forall h check codec_ok cf seq prev_bytes (ss : list (OutcomeEndToEnd.lsender)) prev next sid bid bm ask,
+  ReportsNoPanic.bok prev_bytes -> OutcomeEndToEnd.lsenders_ok codec_ok cf seq prev_bytes ss -> 1 < seq ->
+  Outcome.outcome_step h cf seq prev (map fst (OutcomeEndToEnd.tagged check codec_ok cf seq prev_bytes ss)) = Ok next ->
+  base.lookup (sid, 3) (Outcome.o_aggs next) = Some (SQuote bid bm ask) ->
+  honest_quote (OutcomeAggRange.accepted_vals (OutcomeEndToEnd.tagged check codec_ok cf seq prev_bytes ss) sid) ->
+  (fpres (OutcomeAggRange.accepted_vals (OutcomeEndToEnd.tagged check codec_ok cf seq prev_bytes ss) sid) <
+   hpres (OutcomeAggRange.accepted_vals (OutcomeEndToEnd.tagged check codec_ok cf seq prev_bytes ss) sid))%nat ->
+  dle bid bm /\ dle bm ask /\
+  exists i1 i2 a1 b1 c1 a2 b2 c2,
+    (exists rms ups vals, In (OutcomeEndToEnd.LCorrect i1 rms ups vals) ss) /\ (exists rms ups vals, In (OutcomeEndToEnd.LCorrect i2 rms ups vals) ss) /\
+    base.lookup sid (OutcomeEndToEnd.oi_vals i1) = Some (SQuote a1 b1 c1) /\ base.lookup sid (OutcomeEndToEnd.oi_vals i2) = Some (SQuote a2 b2 c2) /\
+    dle b1 bm /\ dle bm b2.
+Proof. exact OutcomeEndToEnd.llo_quote_between_data_sources. Qed.
+Print Assumptions C02_llo_quote_between_data_sources.
+
 Theorem C02_llo_timestamp_between_clocks :
   forall h check codec_ok cf seq prev_bytes (ss : list (OutcomeEndToEnd.lsender)) prev next,
   ReportsNoPanic.bok prev_bytes -> OutcomeEndToEnd.lsenders_ok codec_ok cf seq prev_bytes ss -> 1 < seq ->
